@@ -53,6 +53,9 @@ type muxCall struct {
 	seen          bool
 	deliveries    []*muxDelivery
 	deliveries503 []*muxDelivery
+	ctx           frugal.FContext
+	prev          *muxCall // the same caller's previous call
+	ctxReused     bool     // a later call was made with this call's FContext
 }
 
 type muxState struct {
@@ -164,7 +167,12 @@ func muxHarness(rc *RunCtx) {
 		}
 		var tailRest []byte
 		var held []heldFrame
+		tailEpoch := 0
 		m.send = func(d *muxDelivery, opid string, frame []byte) {
+			if tailRest != nil && tailEpoch != st.Epoch {
+				// that connection is gone, and the unfinished frame with it
+				tailRest, held = nil, nil
+			}
 			if tailRest != nil {
 				// the peer is in the middle of sending a frame: what it sends next comes after the rest of that frame
 				held = append(held, heldFrame{d, frame})
@@ -182,8 +190,13 @@ func muxHarness(rc *RunCtx) {
 				m.bySeq[seq] = d
 				st.PeerWrite(unk[:k])
 				tailRest = unk[k:]
+				tailEpoch = st.Epoch
+				ep := st.Epoch
 				delay := []time.Duration{50 * time.Millisecond, 700 * time.Millisecond, 3 * time.Second}[tp.Intn("trailhalf", 3)]
 				m.s.AddEvent(fmt.Sprintf("peer:%03d:rest-of-frame", m.evN), delay, func() {
+					if st.Epoch != ep {
+						return
+					}
 					st.PeerWrite(tailRest)
 					tailRest = nil
 					hs := held
@@ -361,6 +374,15 @@ func muxHarness(rc *RunCtx) {
 		} else if c.tag == "warm" {
 			family = ctx
 		}
+		if p := c.prev; p != nil && family == nil && p.returned && p.plan == "never" && p.sendFault == "" && p.seen && !p.oneway && p.err != nil && len(p.deliveries) == 0 && len(p.deliveries503) == 0 && tp.Intn("retryctx", 2) == 1 {
+			// a retry with the same FContext after a request that was never answered (the API allows reusing a context
+			// once its call is over): nothing was ever sent for this op id, so whatever arrives for it now is the
+			// retry's response
+			ctx = p.ctx
+			p.ctxReused = true
+			rc.Fault("retry-with-the-same-context-after-an-unanswered-request")
+		}
+		c.ctx = ctx
 		ctx.SetTimeout(c.timeout)
 		c.opid, _ = ctx.RequestHeader("_opid")
 		h := ctx.RequestHeaders()
@@ -485,6 +507,9 @@ func muxHarness(rc *RunCtx) {
 				}
 				m.calls = append(m.calls, c)
 				m.byTag[c.tag] = c
+				if len(mine) > 0 {
+					c.prev = mine[len(mine)-1]
+				}
 				mine = append(mine, c)
 			}
 			s.Go("caller", func() {
@@ -536,6 +561,49 @@ func muxHarness(rc *RunCtx) {
 					s.GoRoot("closer", "closer", func() { tr.Close() })
 				})
 				doCall(last)
+			case 0, 1:
+				if tp.Intn("slowdial", 2) == 0 {
+					break
+				}
+				// the connection goes away; opening a new one takes its time (a peer that does not complete the
+				// handshake). A call made meanwhile - with nobody reopening, or while the application or a monitor is
+				// in the middle of that slow Open - is still over by its deadline
+				rc.Fault("call-while-the-connection-is-gone-and-dialling-is-slow")
+				ch := tr.Closed()
+				st.PeerEnd(nil)
+				simrt.Recv(simrt.HarnessSite("mux.wait-closed"), ch)
+				last := &muxCall{id: len(m.calls), caller: -1, tag: "gone", timeout: muxTimeouts[tp.Intn("slowdial", len(muxTimeouts))], plan: "canary", sendFault: "connection-gone"}
+				m.calls = append(m.calls, last)
+				m.byTag[last.tag] = last
+				dial := last.timeout * time.Duration(5+tp.Intn("slowdial", 26)) / 10
+				siteDial := simrt.HarnessSite("mux.slow-dial")
+				st.OpenFault = func(int) error {
+					simrt.Block(siteDial)
+					time.Sleep(dial)
+					simrt.Yield(siteDial)
+					return nil
+				}
+				reopening := tp.Intn("slowdial", 2) == 1
+				reopened := make(chan error, 1)
+				if reopening {
+					s.Go("reopener", func() { simrt.Send(siteDone, reopened, tr.Open()) })
+					settle(dial / 4)
+				}
+				doCall(last)
+				if reopening {
+					if err := simrt.Recv(siteDone, reopened); err == nil {
+						// the new connection works
+						st.OpenFault = nil
+						again := &muxCall{id: len(m.calls), caller: -1, tag: "after-redial", timeout: 2 * time.Second, plan: "canary"}
+						m.calls = append(m.calls, again)
+						m.byTag[again.tag] = again
+						doCall(again)
+						if again.err != nil && !m.s.AnyStall(again.invokeAt, again.returnAt) {
+							rc.Violate("C06", "canary-failed", kind+" after a slow reopen", fmt.Sprintf("%v", again.err))
+						}
+					}
+				}
+				st.OpenFault = nil
 			}
 		}
 		if kind == "nats" && natsReconnect {
@@ -795,7 +863,7 @@ func (m *muxState) onRequest(frame []byte) {
 		// a frame for an already completed (or timed out) op id of another call
 		var done []*muxCall
 		for _, o := range m.calls {
-			if o.returned && !o.oneway {
+			if o.returned && !o.oneway && !o.ctxReused {
 				done = append(done, o)
 			}
 		}
